@@ -80,7 +80,9 @@ Theorem program_run s p reg s' r c f :
       (x = REmpty /\ r' = rf) \/ (x = ROk /\ Steps r r' /\ Steps r' rf).
 Proof.
   intros HB A EC EP EX.
-  destruct (proj2 (proj2 (proj2 vm_runs)) s RNone p reg s' HB r c f [] [] [] [] A) as (r1 & c1 & f1 & rest1 & S1 & A1 & MV & P1 & K1).
+  assert (FR : Fresh c []).
+  { destruct A as (_ & _ & top & EV & RR). left. destruct top as [|x t]; [rewrite EV; reflexivity|]. destruct RR as (_ & N & _). exfalso. apply N. reflexivity. }
+  destruct (proj2 (proj2 (proj2 vm_runs)) s RNone p reg s' HB r c f [] [] [] [] A FR) as (r1 & c1 & f1 & rest1 & S1 & A1 & MV & P1 & K1).
   { cbn. rewrite app_nil_r. exact EC. } { exact EP. }
   inversion K1; subst. destruct A1 as ((G1 & EF1 & (F1 & N1) & B1 & D1) & LB1 & top & EV1 & RR).
   destruct (complete_root r1 c1 f1 top [] G1 EF1) as [S2 T].
@@ -92,7 +94,7 @@ Proof.
   destruct G1 as (C1 & _). split; [eapply cur_upd_cur; exact C1|]. split; [reflexivity|]. split.
   { cbn. destruct top as [|x top]; cbn in RR.
     - rewrite RR. reflexivity.
-    - destruct RR as [-> NN]. destruct reg; try reflexivity. exfalso. apply NN. reflexivity. }
+    - destruct RR as (-> & NN & _). destruct reg; try reflexivity. exfalso. apply NN. reflexivity. }
   split; [rewrite nss_upd_cur; exact N1|]. split; [exact T|].
   intros fuel n x r' H.
   destruct (execute_do_follows r (upd_cur r1 c4) (steps_trans _ _ _ S1 S2) fuel n x r' H) as [(f2 & n2 & _ & _ & E)|Q]; [|right; exact Q].
